@@ -294,3 +294,233 @@ Qed.
 Corollary part_name_inv_base : forall f n, f <> [] -> remove_part_name f = f ->
   remove_part_name (with_part_name f n) = f.
 Proof. intros f n Hf Hb. rewrite (proj1 (part_name_inv f n 0 Hf)). exact Hb. Qed.
+
+(* ======================================================================== *)
+(* access-control entries                                                     *)
+(* ======================================================================== *)
+
+(* ---- name sets, for ANY table ---------------------------------------------------------- *)
+Lemma NoDup_app_disjoint {A} (a b : list A) x : NoDup (a ++ b) -> In x a -> In x b -> False.
+Proof.
+  induction a as [|y a IH]; intros Hn Ha Hb; [exact Ha|].
+  cbn [app] in Hn. inversion Hn as [|? ? Hy Hn']; subst.
+  destruct Ha as [->|Ha]; [apply Hy, in_or_app; right; exact Hb | exact (IH Hn' Ha Hb)].
+Qed.
+
+Lemma NoDup_app_tail {A} (a b : list A) : NoDup (a ++ b) -> NoDup b.
+Proof.
+  induction a as [|y a IH]; intros H; [exact H|]. cbn [app] in H. inversion H; subst. apply IH. assumption.
+Qed.
+
+Lemma fold_left_ext_in {A B} (f g : A -> B -> A) l : (forall a b, In b l -> f a b = g a b) ->
+  forall a, fold_left f l a = fold_left g l a.
+Proof.
+  induction l as [|b l IH]; intros H a; [reflexivity|].
+  cbn [fold_left]. rewrite H by (left; reflexivity). apply IH. intros a' b' Hb. apply H. right. exact Hb.
+Qed.
+
+Definition all_names (tbl : name_table) : list bytes := concat (map snd tbl).
+
+(* the value that survives a round trip: the table bits contained in v *)
+Definition restrict (tbl : name_table) (v : N) : N :=
+  fold_left (fun acc e => if contains v (fst e) then N.lor acc (fst e) else acc) tbl 0.
+
+Section NameSets.
+Variable tbl : name_table.
+Hypothesis Hprinted : Forall (fun e => snd e <> []) tbl.          (* every entry has a printed name *)
+Hypothesis Hnonempty : ~ In [] (all_names tbl).                    (* no name is empty *)
+Hypothesis Hcomma : Forall (fun n => ~ In comma n) (all_names tbl). (* no name contains ',' *)
+Hypothesis Hdistinct : NoDup (all_names tbl).                      (* names are pairwise distinct *)
+
+Lemma name_owner e e' x : In e tbl -> In e' tbl -> In x (snd e) -> In x (snd e') -> e = e'.
+Proof.
+  unfold all_names in Hdistinct. clear Hprinted Hnonempty Hcomma.
+  induction tbl as [|a t IH]; intros He He' Hx Hx'; [contradiction|].
+  cbn [map concat] in Hdistinct.
+  assert (Hin : forall e0, In e0 t -> In x (snd e0) -> In x (concat (map snd t))).
+  { intros e0 H0 Hx0. apply in_concat. exists (snd e0). split; [apply in_map, H0 | exact Hx0]. }
+  destruct He as [->|He], He' as [->|He'].
+  - reflexivity.
+  - exfalso. exact (NoDup_app_disjoint _ _ x Hdistinct Hx (Hin _ He' Hx')).
+  - exfalso. exact (NoDup_app_disjoint _ _ x Hdistinct Hx' (Hin _ He Hx)).
+  - apply IH; try assumption. exact (NoDup_app_tail _ _ Hdistinct).
+Qed.
+
+Lemma printed_in e : In e tbl -> In (hd [] (snd e)) (snd e).
+Proof.
+  intros He. rewrite Forall_forall in Hprinted. specialize (Hprinted e He).
+  destruct (snd e); [contradiction | left; reflexivity].
+Qed.
+
+Lemma name_in_all e x : In e tbl -> In x (snd e) -> In x (all_names tbl).
+Proof. intros He Hx. apply in_concat. exists (snd e). split; [apply in_map, He | exact Hx]. Qed.
+
+Lemma set_names_in v x : In x (set_names tbl v) <->
+  exists e, In e tbl /\ contains v (fst e) = true /\ x = hd [] (snd e).
+Proof.
+  unfold set_names. rewrite in_map_iff. split.
+  - intros (e & <- & He). apply filter_In in He. exists e. tauto.
+  - intros (e & He & Hc & ->). exists e. split; [reflexivity | apply filter_In; tauto].
+Qed.
+
+(* an entry is listed among the printed names exactly when the set contains it *)
+Lemma entry_listed_printed v e : In e tbl -> entry_listed (set_names tbl v) e = contains v (fst e).
+Proof.
+  intros He. apply Bool.eq_iff_eq_true. unfold entry_listed, mem_bytes. rewrite existsb_exists. split.
+  - intros (x & Hx & Hm). apply existsb_exists in Hm. destruct Hm as (y & Hy & Exy).
+    apply bytes_eqb_eq in Exy. subst y. apply set_names_in in Hx. destruct Hx as (e' & He' & Hc & ->).
+    rewrite (name_owner e e' _ He He' Hy (printed_in e' He')). exact Hc.
+  - intros Hc. exists (hd [] (snd e)). split; [apply set_names_in; exists e; tauto|].
+    apply existsb_exists. exists (hd [] (snd e)). split; [apply printed_in, He | apply bytes_eqb_refl].
+Qed.
+
+Lemma set_of_names_printed v : set_of_names tbl (set_names tbl v) = restrict tbl v.
+Proof.
+  unfold set_of_names, restrict. apply fold_left_ext_in. intros a e He.
+  rewrite (entry_listed_printed v e He). reflexivity.
+Qed.
+
+Lemma set_names_comma_free v : Forall (fun n => ~ In comma n) (set_names tbl v).
+Proof.
+  apply Forall_forall. intros x Hx. apply set_names_in in Hx. destruct Hx as (e & He & _ & ->).
+  rewrite Forall_forall in Hcomma. apply Hcomma. apply (name_in_all e); [exact He | apply printed_in, He].
+Qed.
+
+(* the set codec: print, split at ',', look the names up *)
+Theorem set_inv v : set_of_string tbl (set_to_string tbl v) = restrict tbl v.
+Proof.
+  unfold set_of_string, set_to_string. destruct (set_names tbl v) as [|x xs] eqn:E.
+  - (* the empty set prints as "", which splits into one empty name: no entry has it *)
+    cbn [join]. rewrite fields_nil. rewrite <- set_of_names_printed, E.
+    unfold set_of_names. apply fold_left_ext_in. intros a e He.
+    unfold entry_listed. cbn [existsb]. rewrite orb_false_r.
+    destruct (mem_bytes [] (snd e)) eqn:Em; [|reflexivity]. exfalso.
+    unfold mem_bytes in Em. apply existsb_exists in Em. destruct Em as (y & Hy & Ey).
+    apply bytes_eqb_eq in Ey. subst y. exact (Hnonempty (name_in_all e [] He Hy)).
+  - rewrite fields_join; [rewrite <- E; apply set_of_names_printed | rewrite <- E; apply set_names_comma_free | discriminate].
+Qed.
+
+(* no printed set contains a byte that no name contains (used for ':') *)
+Lemma set_to_string_free c v : c <> comma -> Forall (fun n => ~ In c n) (all_names tbl) ->
+  ~ In c (set_to_string tbl v).
+Proof.
+  intros Hc Hall. unfold set_to_string.
+  assert (HF : Forall (fun n => ~ In c n) (set_names tbl v)).
+  { apply Forall_forall. intros x Hx. apply set_names_in in Hx. destruct Hx as (e & He & _ & ->).
+    rewrite Forall_forall in Hall. apply Hall. apply (name_in_all e); [exact He | apply printed_in, He]. }
+  induction HF as [|x xs Hx HF IH]; [intros []|].
+  destruct xs as [|y ys]; [exact Hx|].
+  change (join [comma] (x :: y :: ys)) with (x ++ comma :: join [comma] (y :: ys)).
+  intros Hin. apply in_app_or in Hin. destruct Hin as [Hin|[Hin|Hin]]; [exact (Hx Hin) | exact (Hc (eq_sym Hin)) | exact (IH Hin)].
+Qed.
+End NameSets.
+
+(* a decidable version of the table conditions, for concrete tables *)
+Definition free_of (c : byte) (n : bytes) : bool := negb (existsb (byte_eqb c) n).
+Fixpoint nodup_b (l : list bytes) : bool :=
+  match l with [] => true | x :: r => negb (mem_bytes x r) && nodup_b r end.
+Definition wf_table_b (tbl : name_table) : bool :=
+  forallb (fun e => match snd e with [] => false | _ => true end) tbl
+  && negb (mem_bytes [] (all_names tbl))
+  && forallb (free_of comma) (all_names tbl)
+  && forallb (free_of colon) (all_names tbl)
+  && nodup_b (all_names tbl).
+
+Lemma free_of_spec c n : free_of c n = true -> ~ In c n.
+Proof.
+  unfold free_of. intros H Hin. apply negb_true_iff in H.
+  assert (existsb (byte_eqb c) n = true) by (apply existsb_exists; exists c; split; [exact Hin | apply byte_eqb_refl]).
+  congruence.
+Qed.
+Lemma mem_bytes_spec x l : mem_bytes x l = true <-> In x l.
+Proof.
+  unfold mem_bytes. rewrite existsb_exists. split.
+  - intros (y & Hy & E). apply bytes_eqb_eq in E. subst y. exact Hy.
+  - intros H. exists x. split; [exact H | apply bytes_eqb_refl].
+Qed.
+Lemma nodup_b_spec l : nodup_b l = true -> NoDup l.
+Proof.
+  induction l as [|x l IH]; intros H; [constructor|].
+  cbn [nodup_b] in H. apply andb_true_iff in H. destruct H as [Hx Hl]. constructor; [|apply IH, Hl].
+  intros Hin. apply mem_bytes_spec in Hin. rewrite Hin in Hx. discriminate.
+Qed.
+
+Lemma wf_table_spec tbl : wf_table_b tbl = true ->
+  Forall (fun e => snd e <> []) tbl /\ ~ In [] (all_names tbl) /\
+  Forall (fun n => ~ In comma n) (all_names tbl) /\ Forall (fun n => ~ In colon n) (all_names tbl) /\
+  NoDup (all_names tbl).
+Proof.
+  unfold wf_table_b. rewrite !andb_true_iff. intros [[[[H1 H2] H3] H4] H5]. repeat split.
+  - apply Forall_forall. intros e He. rewrite forallb_forall in H1. specialize (H1 e He). destruct (snd e); [discriminate|discriminate].
+  - intros Hin. apply mem_bytes_spec in Hin. rewrite Hin in H2. discriminate.
+  - apply Forall_forall. intros n Hn. rewrite forallb_forall in H3. apply free_of_spec, H3, Hn.
+  - apply Forall_forall. intros n Hn. rewrite forallb_forall in H4. apply free_of_spec, H4, Hn.
+  - apply nodup_b_spec, H5.
+Qed.
+
+(* the set codec over a well-formed table, on values made of table bits only *)
+Theorem set_inv_table tbl v : wf_table_b tbl = true -> restrict tbl v = v ->
+  set_of_string tbl (set_to_string tbl v) = v /\ ~ In colon (set_to_string tbl v).
+Proof.
+  intros Hwf Hv. destruct (wf_table_spec tbl Hwf) as (H1 & H2 & H3 & H4 & H5). split.
+  - rewrite set_inv by assumption. exact Hv.
+  - apply set_to_string_free; [exact H1 | discriminate | exact H4].
+Qed.
+
+(* ---- the two tables of the CLI ----------------------------------------------------------- *)
+Lemma flag_table_wf : wf_table_b flag_table = true.  Proof. vm_compute. reflexivity. Qed.
+Lemma perm_table_wf : wf_table_b perm_table = true.  Proof. vm_compute. reflexivity. Qed.
+
+Lemma flag_table_covers v : v < 64 -> restrict flag_table v = v.
+Proof.
+  intros H. apply N.eqb_eq.
+  apply (nrange_forall (fun v => N.eqb (restrict flag_table v) v) 64); [vm_compute; reflexivity | exact H].
+Qed.
+Lemma perm_table_covers v : v < 65536 -> restrict perm_table v = v.
+Proof.
+  intros H. apply N.eqb_eq.
+  apply (nrange_forall (fun v => N.eqb (restrict perm_table v) v) 65536); [vm_compute; reflexivity | exact H].
+Qed.
+
+(* ---- entries -------------------------------------------------------------------------------- *)
+(* wf_ident: a named user / group has a non-empty name without ':' *)
+Definition wf_ident (o : owner) : Prop :=
+  match o with User n | Group n => n <> [] /\ ~ In colon n | _ => True end.
+Definition wf_ace (a : ace) : Prop := a_flags a < 64 /\ a_perm a < 65536 /\ wf_ident (a_owner a).
+
+Lemma owner_round o : wf_ident o -> owner_of_strings (owner_kind_str o) (owner_name o) = Ok o.
+Proof.
+  destruct o as [|n| |n| |]; cbn [wf_ident owner_kind_str owner_name]; intros H;
+    try reflexivity; destruct H as [Hn _]; destruct n; try contradiction; reflexivity.
+Qed.
+Lemma owner_name_colon_free o : wf_ident o -> ~ In colon (owner_name o).
+Proof. destruct o; cbn [wf_ident owner_name]; intros H; try (intros []); apply H. Qed.
+Lemma owner_kind_colon_free o : ~ In colon (owner_kind_str o).
+Proof. destruct o; cbn; intuition discriminate. Qed.
+Lemma allow_round b : allow_of_string (allow_str b) = Ok b.
+Proof. destruct b; reflexivity. Qed.
+Lemma allow_colon_free b : ~ In colon (allow_str b).
+Proof. destruct b; cbn; intuition discriminate. Qed.
+
+Lemma ace_fields a : wf_ace a ->
+  fields colon (ace_to_string a) =
+    [ set_to_string flag_table (a_flags a); owner_kind_str (a_owner a); owner_name (a_owner a);
+      allow_str (a_allow a); set_to_string perm_table (a_perm a) ].
+Proof.
+  intros (Hf & Hp & Ho). unfold ace_to_string. apply fields_join; [|discriminate].
+  repeat constructor.
+  - apply (set_inv_table _ _ flag_table_wf (flag_table_covers _ Hf)).
+  - apply owner_kind_colon_free.
+  - apply owner_name_colon_free, Ho.
+  - apply allow_colon_free.
+  - apply (set_inv_table _ _ perm_table_wf (perm_table_covers _ Hp)).
+Qed.
+
+Theorem ace_inv : forall a, wf_ace a -> ace_of_string (ace_to_string a) = Ok a.
+Proof.
+  intros a Hwf. unfold ace_of_string. rewrite (ace_fields a Hwf). destruct Hwf as (Hf & Hp & Ho).
+  rewrite (owner_round _ Ho). cbn [bind]. rewrite allow_round. cbn [bind].
+  rewrite (proj1 (set_inv_table _ _ flag_table_wf (flag_table_covers _ Hf))).
+  rewrite (proj1 (set_inv_table _ _ perm_table_wf (perm_table_covers _ Hp))).
+  destruct a; reflexivity.
+Qed.
